@@ -4,7 +4,7 @@
    constructors) exactly.  Oracle answers (brentq / quadratic root) come with the case and their
    defining equation is re-evaluated here in exact arithmetic. *)
 From Coq Require Import List Arith NArith ZArith QArith Qabs Bool.
-From TLV Require Import Base.Shape Base.Tensor Model.Structure Model.StructureQ Model.StructureHooi Corr.Common.
+From TLV Require Import Base.Shape Base.Tensor Model.Structure Model.StructureQ Model.StructureHooi Model.StructureWeights Corr.Common.
 Import ListNotations.
 Local Open Scope nat_scope.
 
@@ -43,6 +43,12 @@ Inductive op :=
    last full projection and no factor was assigned after it", "every returned factor is the U of the last SVD for its position" *)
 | DHooi (ik : init_kind) (k : nat) (mask tol_set : bool) (n_iter : nat) (decisions : list bool)
 | DHooiFixed (n_modes n_fixed : nat) (mask tol_set : bool) (n_iter : nat) (decisions : list bool)
+(* svd_interface calls of tensor_train / tensor_ring / tensor_train_matrix: (n_row, n_column, n_eigenvecs) per call, then two observables:
+   every core but the last is the reshaped U of its call; the last core is the reshaped S * V of the last call *)
+| DTtCalls (shape : list nat) (spec : rspec) (c : Q)
+| DTrCalls (shape : list nat) (spec : rspec) (mode : nat)
+| DTtmCalls (tshape : list nat) (spec : rspec) (c : Q)
+| DWprog (p : list wstmt)     (* the assignments to the CP weights read off a driver's source: the hypothesis of C08_wprog_unit_weights *)
 | DHprog (p : hprog)         (* the loop of partial_tucker read off the source: does it satisfy the hypothesis of C08_prog_run_core_projected? *)
 | QCpNorm (R : nat) (w : option (list Q)) (fs scales : list (list Q)) (tol : Q) (wout : list Q) (fout : list (list Q)).
 
@@ -59,7 +65,7 @@ Definition oracle_ok (o : op) : bool :=
       negb (is_frac spec) ||
       small (Qred (tt_residual (if constant then tt_quadratic_const shape (frac_of spec) else tt_quadratic shape (frac_of spec)) c
                    / n2q (prod shape))%Q)
-  | DTt shape spec c =>
+  | DTt shape spec c | DTtCalls shape spec c =>
       negb (is_frac spec) || small (Qred (tt_residual (tt_quadratic shape (frac_of spec)) c / n2q (prod shape))%Q)
   | _ => true
   end.
@@ -111,6 +117,10 @@ Definition run (o : op) : res (list (list nat)) :=
       let t := tucker_fixed_trace nm nf mask tol_set n decisions in
       let inner := hooi_trace InitUser (nm - nf) mask tol_set n decisions in
       Ok [map code t; [if (nf <? nm) && ends_projected inner then 1 else 0]; [if (nf <? nm) && factors_from_svd (nm - nf) inner then 1 else 0]]
+  | DTtCalls shape spec c => one (tensor_train_calls shape spec c) (fun l => l ++ [[1]; [1]])
+  | DTrCalls shape spec mode => one (tensor_ring_calls shape spec mode) (fun l => l ++ [[1]; [1]])
+  | DTtmCalls tshape spec c => one (tensor_train_matrix_calls tshape spec c) (fun l => l ++ [[1]; [1]])
+  | DWprog p => Ok [[if wprog_ok p then 1 else 0]]
   | DHprog p => Ok [[if prog_ok p then 1 else 0]]
   | DNorm2 d nf tol_set n decisions =>
       let t := trace_run2 d nf tol_set n decisions in
